@@ -33,6 +33,59 @@ CHECKS = {
              'Witnesses incl. first/last sample of a file and seeded boundary cases are replayed on the real build through ctypes.',
         technique='symbolic execution of LLVM IR to SMT (z3 NIA/LIA, Euclid variables, compositional summaries) + AST-to-SMT for the Python guard',
         design_ref='DESIGN.md section 4 C04'),
+    'C01': dict(
+        level='model_checking',
+        text='Compositional, bounded: (W0) digital_rf_create_rf_data_index / digital_rf_get_global_sample executed from IR with every argument '
+             'symbolic == declarative CutSpec (index_len 1..3); (W1) the whole C write path executed from IR over an abstract HDF5/POSIX '
+             'environment for histories of up to 2 (thorough 3) calls in one path, in gapped, continuous+chunked and continuous modes and through '
+             'both C entry points: for an arbitrary vector position j the solver shows it is written exactly once, from vector+j*elemsize, '
+             'into the file whose window contains its index, at a row that the file\'s final index maps back to exactly that index. File windows '
+             'are abstracted by the partition lemma proved for all rates/cadences in the same run (C04), so the claim is rate-independent. '
+             '(R1/R2) CrossHair confirms over all paths that the real _read / _combine_blocks return Blocks(Sem(index)) and the maximal merge. '
+             '(X) one solver witness per path shape of the regular-window twins is run on the real build: C writer -> files -> real reader == '
+             'reference model. Bounds: <=3 blocks, <=3 files per call, <=3 index rows per file on the reader side.',
+        note='Trusted: z3, CrossHair, vlib/llsym.py IR semantics, environment stubs (fresh channel, no faults), HDF5 storing what H5Dwrite is '
+             'given. N1 (reader candidate file list vs writer naming) is decided in checks/readerside.py.',
+        technique='symbolic execution of LLVM IR to SMT (z3) with compositional summaries + CrossHair on the real Python reader',
+        design_ref='DESIGN.md section 4 C01'),
+    'C05': dict(
+        level='model_checking',
+        text='W0 shows rows_to_write == -1 <=> Malformed(g, b, vlen, cursor) with all arguments symbolic; the whole C write path is then executed '
+             'with ARBITRARY block arrays after zero or one accepted call (all modes, both C entry points, NULL data, zero-length calls): on '
+             'every path a call is rejected iff it is malformed, a rejected call issues no mutating HDF5/file-system operation and leaves the '
+             'cursor and open-file state unchanged, and a malformed call is never accepted.',
+        note='Trusted: z3, IR executor, stubs. chunk_size may be fixed by a rejected first call (not observable per the property). The Python '
+             'pre-validation is decided in checks/pylayer.py.',
+        technique='symbolic execution of LLVM IR to SMT (z3), path-chained call histories',
+        design_ref='DESIGN.md section 4 C05'),
+    'C06': dict(
+        level='model_checking',
+        text='On every path of the write-path histories (see C01) the solver shows each created file has a well-formed index (>=1 row, offset 0, '
+             'strictly increasing, d(offset)<=d(sample), last offset inside the stored rows, all samples inside the file window, rows <= window '
+             'capacity), exactly the 19 documented attributes with the writer\'s parameters, and sequence numbers 0,1,2.. in file-time order; W0 '
+             'shows the rows handed to HDF5 are well formed for all arguments; digital_rf_handle_metadata (create) writes exactly the 15 '
+             'channel attributes. Witness histories are run on the real build and every file\'s index compared semantically.',
+        note='Trusted: z3, IR executor, stubs; attribute values are what is handed to H5Awrite. recreate_properties_file: checks/pylayer.py.',
+        technique='symbolic execution of LLVM IR to SMT (z3) over an event-trace model of the files',
+        design_ref='DESIGN.md section 4 C06'),
+    'C08': dict(
+        level='model_checking',
+        text='CrossHair (per-path z3 queries) on the real reader functions with list-backed stand-ins for h5py datasets: Confirmed over all '
+             'paths that lengths-only and data reads both equal Blocks(Sem(index)) clipped to the range (<=3 index rows), sub_channel selects '
+             'that column, reading a range equals merging any split of it, two-file reads skip vanished files, bounds are min/max of Sem of the '
+             'first/last readable file and merge across directories, read()/get_continuous_blocks() forward identical ranges, and the vector '
+             'read returns exactly the single fully covering block or raises IOError (lengths 1..4 incl. 1).',
+        note='Trusted: CrossHair/z3, the stand-ins (shape/slicing semantics of h5py datasets), OrderedDict replaced by an ordered list mapping.',
+        technique='CrossHair symbolic execution of the real Python functions (z3), counterexamples replayed on the real build',
+        design_ref='DESIGN.md section 4 C08'),
+    'C19': dict(
+        level='model_checking',
+        text='On every path of the write-path histories the solver shows: after each accepted call the cursor is one past the highest index '
+             'written; last-file / last-directory getters name the file containing the most recently written sample; has_failure stays 0; a '
+             'rejected or zero-length call leaves the cursor unchanged. Witnesses are run on the real build.',
+        note='Trusted: z3, IR executor, stubs. Python counters: checks/pylayer.py.',
+        technique='symbolic execution of LLVM IR to SMT (z3), path-chained call histories',
+        design_ref='DESIGN.md section 4 C19'),
 }
 
 NOT_YET = 'check not built yet in this revision of /verif (planned, see DESIGN.md section 4)'
